@@ -27,7 +27,9 @@ def judge(ctx, binp, events, what):
     seq = [b for b in bad if not b["in"].get("par")]
     par = [b for b in bad if b["in"].get("par")]
     # concurrent batches are reproduced as a whole batch (their trace), sequential calls one by one
-    for e in vlib.reproduce(ctx, binp, seq, history=events) + vlib.reproduce_concurrent(ctx, binp, events, par, "Bech32Trace"):
+    conf = vlib.reproduce(ctx, binp, seq, history=events) + vlib.reproduce_concurrent(ctx, binp, events, par, "Bech32Trace")
+    # the unexported polymod is a white-box aid (what it returns is the implementation's business): Decode / Encode decide
+    for e in vlib.settle_whitebox(ctx, conf, {"bech32.polymod"}, label="bech32"):
         ctx.bad.append(dict(event=e, reason=what))
 
 
